@@ -52,7 +52,66 @@ def dense(v):
 from ._cache_protocol import api_history  # noqa: E402
 
 
+def large_sparse_jacobian(ctx):
+    """A discipline whose (sparse) Jacobian has thousands of non-zero entries, linearized at repeated and new
+    inputs with each cache type, against the Jacobian of the uncached function."""
+    import numpy as np
+    from scipy.sparse import csr_array
+
+    from gemseo.core.discipline import Discipline
+    from gemseo.utils.singleton import SingleInstancePerFileAttribute
+
+    t = ctx.tape
+    n = t.pick([40, 130, 150], "size")
+    policy = t.pick(["SimpleCache", "MemoryFullCache", "HDF5Cache"], "policy")
+    a = (np.arange(n * n).reshape(n, n) % 7 + 1.0) / 8.0
+
+    class Big(Discipline):
+        def __init__(self):
+            super().__init__("Big")
+            self.io.input_grammar.update_from_names(["x"])
+            self.io.output_grammar.update_from_names(["y"])
+            self.io.input_grammar.defaults["x"] = np.zeros(n)
+            self.n_run = 0
+
+        def _run(self, input_data):
+            self.n_run += 1
+            x = input_data["x"]
+            return {"y": a @ x + x * x}
+
+        def _compute_jacobian(self, input_names=(), output_names=()):
+            self.jac = {"y": {"x": csr_array(a + np.diag(2 * self.io.data["x"]))}}
+
+    SingleInstancePerFileAttribute.instances.clear()
+    d = Big()
+    if policy == "HDF5Cache":
+        d.set_cache("HDF5Cache", hdf_file_path=str(ctx.scratch / "big.h5"), hdf_node_path="n")
+    else:
+        d.set_cache(policy)
+    sig = f"large sparse Jacobian {policy}"
+    xs = [np.full(n, 0.5), np.linspace(0.0, 1.0, n)]
+    seq = [t.choice(2, f"x[{i}]") for i in range(t.randint(1, 4, "n_lin"))]
+    ctx.event("cfg", n, policy, tuple(seq))
+    for i, k in enumerate(seq):
+        try:
+            jac = d.linearize({"x": xs[k].copy()}, compute_all_jacobians=True)
+        except Exception as exc:  # noqa: BLE001
+            ctx.violate("C05.jacobian_equal_uncached", sig + f" raised={type(exc).__name__}",
+                        f"linearize number {i + 1} of a discipline with a {n}x{n} sparse Jacobian ({n * n} stored entries) raised {exc!r} with {policy}; the uncached discipline returns the Jacobian")
+        got = dense(jac["y"]["x"])
+        if got.shape != (n, n) or not array_equal(got, a + np.diag(2 * xs[k])):
+            ctx.violate("C05.jacobian_equal_uncached", sig, f"linearize number {i + 1} (input {k}) returned a Jacobian that differs from the uncached one; sequence {seq}")
+    if policy != "SimpleCache" and d.n_run > len(set(seq)):
+        ctx.violate("C05.runs_once_per_input", sig, f"the body ran {d.n_run} times for {len(set(seq))} distinct inputs; sequence {seq}")
+    SingleInstancePerFileAttribute.instances.clear()
+    ctx.probe("large_sparse_jacobian_histories")
+    ctx.case(("large sparse", n, policy, tuple(seq)), nontrivial=len(seq) >= 2)
+    ctx.sample = {"family": "large sparse Jacobian", "size": n, "policy": policy, "sequence": seq}
+
+
 def run(ctx):
+    if ctx.tape.flag(0.01, "large_sparse_jacobian"):
+        return large_sparse_jacobian(ctx)
     if ctx.tape.flag(0.2, "cache_protocol_history"):
         return api_history(ctx)
     from gemseo.core.discipline import Discipline
